@@ -20,10 +20,22 @@ mod fld;
 mod c09;
 mod c10;
 mod c11;
+#[cfg(feature = "ark")]
+mod c13;
+#[cfg(feature = "ark")]
+mod c14;
+#[cfg(feature = "ark")]
+mod c15;
+#[cfg(feature = "ark")]
+mod r1;
+#[cfg(feature = "ark")]
+mod c16;
+mod constants;
 mod grp;
 mod model;
 mod mon;
 mod sh;
+mod transcript;
 mod zoo;
 
 use serde_json::json;
@@ -80,6 +92,7 @@ fn main() {
     }
     mon::silence_panics();
     let mut rec = mon::Rec::new();
+    let mut extra: Option<serde_json::Value> = None;
     match cmd.as_str() {
         "C01" => encp::run_c01(&ctx, &mut rec),
         "C02" => encp::run_c02(&ctx, &mut rec),
@@ -92,12 +105,25 @@ fn main() {
         "C09" => c09::run(&ctx, &mut rec),
         "C10" => c10::run(&ctx, &mut rec),
         "C11" => c11::run(&ctx, &mut rec),
+        #[cfg(feature = "ark")]
+        "C13" => c13::run(&ctx, &mut rec),
+        #[cfg(feature = "ark")]
+        "C14" => c14::run(&ctx, &mut rec),
+        #[cfg(feature = "ark")]
+        "C15" => c15::run(&ctx, &mut rec),
+        #[cfg(feature = "ark")]
+        "C16" => c16::run(&ctx, &mut rec),
+        "constants" => extra = Some(constants::run(&ctx, &mut rec)),
+        "transcript" => transcript::run(&ctx, &mut rec, out.as_deref().expect("--out required")),
         other => {
             eprintln!("unknown command {other}");
             std::process::exit(2);
         }
     }
     let mut v = rec.to_json();
+    if let Some(e) = extra {
+        v["x_dump"] = e;
+    }
     v["property"] = json!(cmd);
     v["build"] = json!(ad::BUILD);
     v["tier"] = json!(tier);
